@@ -1061,6 +1061,47 @@ def rule_r12(ctx):
                 r.ob(f, "%s line %s: nothing of the container is changed before it" % (a.node["fn"], a.line))
 
 
+# ---------------------------------------------------------------------------
+# R13: a half-built reference-counted object is released with the raw free, not with the counted release
+
+
+def rule_r13(ctx):
+    from .. import guards as G
+    r = ctx.rule("C20.R13", "T3", "constructors of reference-counted objects: between the allocation of the object and the "
+                 "initialisation of its reference count, an error path releases it with the raw free (NNI_FREE_STRUCT); the "
+                 "counted release (nni_msg_free: decrement, free at zero) on a count that is still zero never frees it", floor=2)
+    prog = ctx.prog
+    n = 0
+    for f in prog.fns_in("core/message.c"):
+        if f.cfg_failed:
+            continue
+        inits = [c for c in f.calls(("nni_atomic_set", "nni_atomic_init")) if c.node["args"] and
+                 (last_field(f.expand(c.node["args"][0])) or "").endswith("m_refcnt")]
+        if not inits:
+            continue
+        obj = None
+        for c in inits:
+            a = f.expand(c.node["args"][0])
+            while a is not None and a.get("k") in ("un", "mem"):
+                a = a["e"] if a.get("k") == "un" else a["b"]
+            if a is not None and a.get("k") == "var":
+                obj = a["n"]
+        if obj is None:
+            continue
+        n += 1
+        early = [c for c in f.calls("nni_msg_free") if c.node["args"] and
+                 (lambda x: x.get("k") == "var" and x["n"] == obj)(f.expand(c.node["args"][0])) and
+                 not f.dominated_by((c.b, c.i), blocked=lambda b, i, e: (b, i) in G.positions(inits))]
+        if early:
+            ctx.fail(r, f, "counted release of an object whose count is not initialised", early[0].line,
+                     "%s calls nni_msg_free(%s) at line %s before m_refcnt is set to 1: the decrement makes it -1, the object "
+                     "is never freed, and the failed allocation leaks the message structure" % (f.name, obj, early[0].line))
+        else:
+            r.ob(f, "error paths before the count is initialised use the raw free")
+    if n < 2:
+        raise AnalysisBroken("only %d constructors that initialise m_refcnt" % n)
+
+
 def run(ctx):
     ctx.guard(rule_r1)
     ctx.guard(rule_r2)
@@ -1072,3 +1113,4 @@ def run(ctx):
     ctx.guard(rule_r10)
     ctx.guard(rule_r11)
     ctx.guard(rule_r12)
+    ctx.guard(rule_r13)
